@@ -20,7 +20,7 @@
 (*   mub      one (basis, circuit) pair of a MUB family            (C09,C02)*)
 (*   meas     a tomography / stabilizer-measurement circuit        (C02)   *)
 (***************************************************************************)
-EXTENDS CliffordMachine, Exported, TLC, Json, IOUtils
+EXTENDS CliffordMachine, ClassIds, TLC, Json, IOUtils
 
 Traces == JsonDeserialize(IOEnv.TRACE_FILE)
 NT == Len(Traces)
@@ -29,27 +29,6 @@ VARIABLES tid,      \* index of the trace being validated
           l,        \* 0: request not yet consumed; k: k-th gate event is next; Len+1: return is next
           fails     \* clauses violated so far in this trace
 vars == <<tid, l, fails, tab, cost, lvl>>
-
-(***************************************************************************)
-(* class keys and ids                                                      *)
-(***************************************************************************)
-ClassKey(G) == {Supp(p) : p \in G}
-KeyOfGraph(n, g) == ClassKey(Span(GraphGens(n, g)))
-KeysOf(n) == [i \in 1..Len(RepGraphs(n)) |-> KeyOfGraph(n, RepGraphs(n)[i])]
-Keys2 == KeysOf(2)
-Keys3 == KeysOf(3)
-Keys4 == KeysOf(4)
-Keys5 == KeysOf(5)
-Keys6 == KeysOf(6)
-Inv(ks) == [k \in {ks[i] : i \in DOMAIN ks} |-> (CHOOSE i \in DOMAIN ks : ks[i] = k) - 1]
-IdBy2 == Inv(Keys2)
-IdBy3 == Inv(Keys3)
-IdBy4 == Inv(Keys4)
-IdBy5 == Inv(Keys5)
-IdBy6 == Inv(Keys6)
-IdByKey(n) == CASE n = 2 -> IdBy2 [] n = 3 -> IdBy3 [] n = 4 -> IdBy4 [] n = 5 -> IdBy5 [] n = 6 -> IdBy6
-(* class id of a sign-free group; -1 if its key is not the key of any representative *)
-IdOfGroup(n, G) == LET k == ClassKey(G) f == IdByKey(n) IN IF k \in DOMAIN f THEN f[k] ELSE -1
 
 (***************************************************************************)
 (* helpers                                                                 *)
